@@ -119,7 +119,7 @@ def tiny : St Int :=
     acts := []
     crash := none }
 
-example : Init (fixedArith 4) tiny :=
+theorem tiny_init : Init (fixedArith 4) tiny :=
   { meth := rfl, noActs := rfl
     wf := by unfold St.WF; decide
     bwf := by intro b hb cid hc; simp [tiny] at hb; rcases hb with rfl | rfl <;> simp at hc <;> (try rcases hc with rfl | rfl) <;> decide
